@@ -158,6 +158,8 @@ func isBasicPointer(typ types.Type) bool {
 }
 
 func (g *gen) genStatement(typ types.Type, this string) error {
+	// an alias is only another name for its type
+	typ = types.Unalias(typ)
 	p := g.printer
 	switch ttyp := typ.Underlying().(type) {
 	case *types.Basic:
@@ -296,6 +298,7 @@ func (g *gen) genStatement(typ types.Type, this string) error {
 }
 
 func (g *gen) genField(fieldType types.Type, this string) error {
+	fieldType = types.Unalias(fieldType)
 	p := g.printer
 	switch typ := fieldType.Underlying().(type) {
 	case *types.Basic:
